@@ -1,11 +1,192 @@
 (* C10 — Literate documents: prose is inert and named code blocks are isolated.
-   Property theorems only; proofs live in Proofs/DocP.v. *)
+   Property theorems only; proofs live in Proofs/DocP.v.
+
+   [run_doc exec cmt init d] (Model/Doc.v) mirrors src/interpreter/src/mechdown.rs: the elements of a document
+   in order; Code and unnamed fences run in the main store and the first error there ends the document; a fence
+   named n runs in n's own store (created from [init] on first use) and its first error ends that fence only;
+   prose, non-mech code blocks and disabled fences do nothing.  All theorems of sections 1-5 hold for EVERY
+   statement semantics [exec], every comment effect [cmt] and every initial store [init], and for all documents. *)
 From Coq Require Import List ZArith String.
 From MechV Require Import Base.Sexp Base.Obs Model.Doc Proofs.DocP.
 Import ListNotations.
 
+(* 1. Prose is inert: titles, paragraphs, lists, quotes, tables, other-language / disabled fences can be
+      removed (or inserted anywhere) without changing any store, the halting state included. *)
 Theorem C10_prose_inert : forall (S stmt prose : Type) (exec : S -> stmt -> res S) (cmt : S -> S) (init : S)
   (d : list (elem stmt prose)),
   run_doc exec cmt init (strip_prose d) = run_doc exec cmt init d.
 Proof. exact (@prose_inert). Qed.
 Print Assumptions C10_prose_inert.
+
+Theorem C10_inert_insert : forall (S stmt prose : Type) (exec : S -> stmt -> res S) (cmt : S -> S) (init : S)
+  (d1 d2 : list (elem stmt prose)) e,
+  is_inert e = true -> run_doc exec cmt init (d1 ++ e :: d2) = run_doc exec cmt init (d1 ++ d2).
+Proof. exact (@inert_insert). Qed.
+Print Assumptions C10_inert_insert.
+
+(* 2. The main store is the fold of exec over the concatenation of the main code (top-level code and unnamed
+      fences) in document order, stopping at its first error; nothing else influences it. *)
+Theorem C10_main_is_code_in_order : forall (S stmt prose : Type) (exec : S -> stmt -> res S) (cmt : S -> S) (init : S)
+  (d : list (elem stmt prose)),
+  d_main (run_doc exec cmt init d) = fst (run_items exec cmt init (main_items d)) /\
+  d_halted (run_doc exec cmt init d) = negb (snd (run_items exec cmt init (main_items d))).
+Proof. exact (@main_is_code_in_order). Qed.
+Print Assumptions C10_main_is_code_in_order.
+
+Theorem C10_main_depends_only_on_main_code : forall (S stmt prose : Type) (exec : S -> stmt -> res S) (cmt : S -> S) (init : S)
+  (d1 d2 : list (elem stmt prose)),
+  main_items d1 = main_items d2 ->
+  d_main (run_doc exec cmt init d1) = d_main (run_doc exec cmt init d2) /\
+  d_halted (run_doc exec cmt init d1) = d_halted (run_doc exec cmt init d2).
+Proof. exact (@main_depends_only_on_main_code). Qed.
+Print Assumptions C10_main_depends_only_on_main_code.
+
+(* an error in main code ends the document (what the real code does; the property does not fix this case) *)
+Theorem C10_main_error_stops_document : forall (S stmt prose : Type) (exec : S -> stmt -> res S) (cmt : S -> S) (init : S)
+  (d1 d2 : list (elem stmt prose)),
+  d_halted (run_doc exec cmt init d1) = true -> run_doc exec cmt init (d1 ++ d2) = run_doc exec cmt init d1.
+Proof. exact (@main_error_stops_document). Qed.
+Print Assumptions C10_main_error_stops_document.
+
+Theorem C10_only_the_evaluated_part_matters : forall (S stmt prose : Type) (exec : S -> stmt -> res S) (cmt : S -> S) (init : S)
+  (d : list (elem stmt prose)),
+  run_doc exec cmt init (live exec cmt init d) = run_doc exec cmt init d.
+Proof. exact (@run_doc_live). Qed.
+Print Assumptions C10_only_the_evaluated_part_matters.
+
+(* 3. Namespaces: the store of name n is the fold over the fences named n that are reached, each up to its
+      first error, starting from a fresh store; it exists iff there is such a fence; it depends on nothing else. *)
+Theorem C10_namespace_is_its_fences : forall (S stmt prose : Type) (exec : S -> stmt -> res S) (cmt : S -> S) (init : S)
+  n (d : list (elem stmt prose)),
+  lookup n (d_subs (run_doc exec cmt init d)) = ns_result exec cmt init n (live exec cmt init d).
+Proof. exact (@namespace_is_its_fences). Qed.
+Print Assumptions C10_namespace_is_its_fences.
+
+Theorem C10_namespaces_disjoint : forall (S stmt prose : Type) (exec : S -> stmt -> res S) (cmt : S -> S) (init : S)
+  n (d1 d2 : list (elem stmt prose)),
+  ns_fences n (live exec cmt init d1) = ns_fences n (live exec cmt init d2) ->
+  lookup n (d_subs (run_doc exec cmt init d1)) = lookup n (d_subs (run_doc exec cmt init d2)).
+Proof. exact (@namespaces_disjoint). Qed.
+Print Assumptions C10_namespaces_disjoint.
+
+(* 4. A named fence — whatever happens inside it, errors included — is invisible to the main program and to
+      every other name, and the rest of the document is evaluated exactly as without it. *)
+Theorem C10_named_fence_invisible : forall (S stmt prose : Type) (exec : S -> stmt -> res S) (cmt : S -> S) (init : S)
+  (d1 d2 : list (elem stmt prose)) n l,
+  let A := run_doc exec cmt init (d1 ++ Fence (FNamed n) l :: d2) in
+  let B := run_doc exec cmt init (d1 ++ d2) in
+  d_main A = d_main B /\ d_halted A = d_halted B /\
+  forall m, m <> n -> lookup m (d_subs A) = lookup m (d_subs B).
+Proof. exact (@named_fence_invisible). Qed.
+Print Assumptions C10_named_fence_invisible.
+
+(* an error inside a named fence ends that fence only: the lines after the failing one are never executed
+   (the document equals the one without them), the fence leaves the store the failing line left, and the
+   document is not halted *)
+Theorem C10_named_error_isolated : forall (S stmt prose : Type) (exec : S -> stmt -> res S) (cmt : S -> S) (init : S)
+  (d1 d2 : list (elem stmt prose)) n l1 a l2 s1 s2,
+  run_items exec cmt (sub_or_init init n (d_subs (run_doc exec cmt init d1))) l1 = (s1, true) ->
+  step exec cmt s1 a = Err s2 ->
+  run_doc exec cmt init (d1 ++ Fence (FNamed n) (l1 ++ a :: l2) :: d2)
+    = run_doc exec cmt init (d1 ++ Fence (FNamed n) (l1 ++ [a]) :: d2) /\
+  (d_halted (run_doc exec cmt init d1) = false ->
+     lookup n (d_subs (run_doc exec cmt init (d1 ++ [Fence (FNamed n) (l1 ++ a :: l2)]))) = Some s2 /\
+     d_halted (run_doc exec cmt init (d1 ++ [Fence (FNamed n) (l1 ++ a :: l2)])) = false).
+Proof. exact (@named_error_cuts_suffix). Qed.
+Print Assumptions C10_named_error_isolated.
+
+(* 5. Comments.  They are code lines in the implementation (MechCode::Comment).  Where a comment leaves the
+      store alone they are inert ... *)
+Theorem C10_holds_comments_inert : forall (S stmt prose : Type) (exec : S -> stmt -> res S) (cmt : S -> S) (init : S)
+  (d : list (elem stmt prose)),
+  (forall s, cmt s = s) -> run_doc exec cmt init (strip_cmts d) = run_doc exec cmt init d.
+Proof. exact (@comments_inert_if). Qed.
+Print Assumptions C10_holds_comments_inert.
+
+(* ... and in general they are inert up to any relation R that [cmt] respects and no statement can observe *)
+Theorem C10_holds_comments_inert_upto : forall (S stmt prose : Type) (exec : S -> stmt -> res S) (cmt : S -> S) (init : S)
+  (R : S -> S -> Prop),
+  (forall s, R s s) -> (forall s t, R s t -> R (cmt s) t) ->
+  (forall s t a, R s t ->
+     match exec s a, exec t a with
+     | Ok s', Ok t' => R s' t' | Err s', Err t' => R s' t' | _, _ => False end) ->
+  forall d : list (elem stmt prose), ds_rel R (run_doc exec cmt init d) (run_doc exec cmt init (strip_cmts d)).
+Proof. exact (@comments_inert_upto). Qed.
+Print Assumptions C10_holds_comments_inert_upto.
+
+(* 6. Known finding `comment-resets-ans`: in the implementation's semantics a comment is NOT inert — mech_code()
+      sends the Empty result of a comment through update_ans_symbol.  With the concrete store (variables + ans)
+      of Model/Doc.v: the document `x := 5 / -- note` differs from its comment-free version ... *)
+Theorem C10_refuted_comment_resets_ans :
+  (exists d : list (elem tstmt string), trun d <> trun (strip_cmts d)) /\
+  t_ans (d_main (trun refute_doc)) = None /\
+  t_ans (d_main (trun (strip_cmts refute_doc))) = Some 5%Z.
+Proof. exact (conj comments_not_inert (conj (proj1 comment_resets_ans) (proj1 (proj2 comment_resets_ans)))). Qed.
+Print Assumptions C10_refuted_comment_resets_ans.
+
+(* ... but only in `ans`: all variables agree, in main and in every namespace, and so does halting *)
+Theorem C10_holds_upto_ans : forall d : list (elem tstmt string),
+  ds_rel same_vars (trun d) (trun (strip_cmts d)).
+Proof. exact toy_comments_inert_upto_ans. Qed.
+Print Assumptions C10_holds_upto_ans.
+
+(* 7. The judge.  `ok`: the echoed sources are the ones the model renders / prescribes, the document parsed,
+      and its main table, result and every namespace table equal those of the code-only documents. *)
+Theorem C10_judge_sound : forall stream jd os tag,
+  judge_doc stream jd os = Some (v_ok tag) -> C10_spec jd os.
+Proof. exact judge_doc_sound. Qed.
+Print Assumptions C10_judge_sound.
+
+(* `kf comment-resets-ans` is answered only if every table equals its code-only table or, where the model says
+   the last executed line of that interpreter is a comment, that table with ans := Empty *)
+Theorem C10_judge_kf_comment_sound : forall stream jd os,
+  judge_doc stream jd os = Some (v_kf "comment-resets-ans") -> C10_spec_kf jd os.
+Proof. exact judge_doc_kf_sound. Qed.
+Print Assumptions C10_judge_kf_comment_sound.
+
+(* `kf list-then-dash-line` is answered only inside the class and only for a parse error *)
+Theorem C10_judge_kf_list_dash_sound : forall stream jd os,
+  judge_doc stream jd os = Some (v_kf "list-then-dash-line") ->
+  kf_list_dash (doc_of jd) = true /\ exists D M rest, os = D :: M :: rest /\ is_perr (o_res D) = true.
+Proof. exact judge_kf_list_dash. Qed.
+Print Assumptions C10_judge_kf_list_dash_sound.
+
+(* ---- non-vacuity ---- *)
+Open Scope string_scope.
+(* x := 5 | prose | ```mech:a  a := x (fails: main is invisible)  b := 1 ``` | ```mech:a  c := 2 ```
+   | ```mech:b  d := c (fails: a is invisible) ``` | disabled fence | y := x + 1 *)
+Definition example_doc : list (elem tstmt string) :=
+  [ Code [Stmt (TDef "x" (TLit 5))];
+    Prose "Some words.";
+    Fence (FNamed "a") [Stmt (TDef "a" (TVar "x")); Stmt (TDef "b" (TLit 1))];
+    Fence (FNamed "a") [Stmt (TDef "c" (TLit 2))];
+    Fence (FNamed "b") [Stmt (TDef "d" (TVar "c"))];
+    Fence FDisabled [Stmt (TDef "x" (TLit 99))];
+    NonMech "x = 99";
+    Code [Stmt (TDef "y" (TAdd (TVar "x") (TLit 1)))] ].
+
+Example C10_example :
+  trun example_doc =
+  DS (TS [("x", 5%Z); ("y", 6%Z)] (Some 6%Z))
+     [("a", TS [("c", 2%Z)] (Some 2%Z)); ("b", TS [] None)] false /\
+  trun example_doc = trun (strip_prose example_doc).
+Proof. split; reflexivity. Qed.
+Print Assumptions C10_example.
+
+(* the hypotheses of C10_named_error_isolated are satisfiable: the first fence of example_doc *)
+Example C10_example_isolated :
+  run_items texec tcmt (sub_or_init tinit "a" (d_subs (trun [Code [Stmt (TDef "x" (TLit 5))]]))) [] = (tinit, true) /\
+  step texec tcmt tinit (Stmt (TDef "a" (TVar "x"))) = Err tinit.
+Proof. split; reflexivity. Qed.
+Print Assumptions C10_example_isolated.
+
+(* the extracted judge on two small lines: equal tables -> ok; a trailing comment that reset ans -> kf *)
+Example C10_example_judge :
+  run_line "((docase plain (el """" """" ""```"" ""mech"" (code (stmt ""x := 5"" 0)))) (docs (doc ""x := 5\n"" (val) (syms (""ans"" 0 0 (s f64 1)) (""x"" 0 0 (s f64 1))) (subs)) (doc ""x := 5\n"" (val) (syms (""ans"" 0 1 (s f64 1)) (""x"" 0 0 (s f64 1))) (subs))))"
+    = "(ok plain)" /\
+  run_line "((docase plain (el """" """" ""```"" ""mech"" (code (stmt ""x := 5"" 0) (cmt ""-- c"")))) (docs (doc ""x := 5\n-- c\n"" (val) (syms (""ans"" 0 0 (empty)) (""x"" 0 1 (s f64 1))) (subs)) (doc ""x := 5\n"" (val) (syms (""ans"" 0 0 (s f64 1)) (""x"" 0 0 (s f64 1))) (subs))))"
+    = "(kf comment-resets-ans)" /\
+  run_line "((docase plain (el """" """" ""```"" ""mech"" (code (stmt ""x := 5"" 0)))) (docs (doc ""x := 5\n"" (val) (syms (""ans"" 0 0 (s f64 1)) (""x"" 0 0 (s f64 2))) (subs)) (doc ""x := 5\n"" (val) (syms (""ans"" 0 1 (s f64 1)) (""x"" 0 0 (s f64 1))) (subs))))"
+    = "(bad main-table-differs ((""ans"" 0 (s f64 1)) (""x"" 0 (s f64 1))))".
+Proof. repeat split; vm_compute; reflexivity. Qed.
+Print Assumptions C10_example_judge.
